@@ -1535,6 +1535,27 @@ def unisolated_return(fns, cert):
     return out
 
 
+def has_dangling_else(body):
+    """does the source text of the tree contain `if (a) if (b) x; else …` — a brace-less branch body that is itself an `if`,
+    followed by a further part of the same chain?"""
+    for s in body:
+        k = s[0]
+        if k == "if":
+            parts = [b for _c, b in s[1]] + ([s[2]] if s[2] is not None else [])
+            for j, b in enumerate(parts):
+                if j + 1 < len(parts) and isinstance(b, NB) and b and b[0][0] == "if":
+                    return True
+                if has_dangling_else(b):
+                    return True
+        elif k == "while" and has_dangling_else(s[2]):
+            return True
+        elif k == "dowhile" and has_dangling_else(s[1]):
+            return True
+        elif k == "for" and has_dangling_else(s[4]):
+            return True
+    return False
+
+
 def check_programs(ck, items, tier, what):
     """items: list of dict(prog=…, cert=index, stream=…).  Compiles with the real compiler, evaluates the
     correspondence in Coq, runs the search on every case, reports violations.  Returns statistics."""
@@ -1542,6 +1563,14 @@ def check_programs(ck, items, tier, what):
     jobs = [dict(src=jmc_src(it), cert=cert_text(CERTS[it["cert"]]), **({"pack_format": it["pack_format"]} if it.get("pack_format") else {}))
             for it in items]
     results = compile_batch(jobs, chunk=100)
+    # `if (a) if (b) x; else y;`: JMC attaches the else to the OUTER if (the trees say so).  A compiler that REFUSES the
+    # ambiguous form instead (fixes/C04-dangling-else-diagnostic.patch, optional) is as good for property C04: such cases are dropped
+    dangling_refused = [i for i, (it, r) in enumerate(zip(items, results))
+                        if (it.get("dangling_else") or has_dangling_else(it["prog"])) and not r["ok"] and r.get("jmc")
+                        and "Ambiguous 'else'" in (r.get("msg") or "")]
+    if dangling_refused:
+        keep = [i for i in range(len(items)) if i not in set(dangling_refused)]
+        items, results = [items[i] for i in keep], [results[i] for i in keep]
     terms = [case_term(it, CERTS[it["cert"]], r) for it, r in zip(items, results)]
     bad, errs = eval_cases_fast(ck.prop, COQ_HEADER, terms, per_file=250)
     for e in errs:
@@ -1589,20 +1618,6 @@ def check_programs(ck, items, tier, what):
                 if j not in notp:
                     excused[i] = True
                     ck.known(kf["id"], kf["what"])
-    # (item 3 of the misc triage) a pending chain directly before a nested function declaration is emitted into the DECLARED
-    # function's file: the case comes from the stream built for it, and the declared function's file is "<other lines>" +
-    # its own body
-    kf2 = known_entries("C04").get("C04-pending-chain-before-nested-declaration")
-    excused2 = 0
-    if kf2:
-        for i in sorted(set(sem_fail) | bad):
-            d = items[i].get("decl")
-            if d and d["kind"] == "function" and results[i]["ok"]:
-                g = real_functions(results[i]).get("g", "")
-                if g != d["gtext"] and g.endswith("\n" + d["gtext"]):
-                    excused[i] = True
-                    excused2 += 1
-                    ck.known(kf2["id"], kf2["what"])
     if excused:
         sem_fail = {i: f for i, f in sem_fail.items() if i not in excused}
         bad = {i for i in bad if i not in excused}
@@ -1646,7 +1661,7 @@ def check_programs(ck, items, tier, what):
     for it in items:
         streams[it["stream"]] = streams.get(it["stream"], 0) + 1
     return dict(results=results, bad=bad, sem_fail=sem_fail, n_runs=n_runs, n_skipped=n_skipped, tags=tags,
-                streams=streams, iters_hist=iters_hist, known_return_in_branch=len(excused) - excused2, known_pending_chain_before_declaration=excused2,
+                streams=streams, iters_hist=iters_hist, known_return_in_branch=len(excused), dangling_else_refused=len(dangling_refused),
                 n_errors=sum(1 for r in results if not r["ok"]))
 
 
